@@ -91,6 +91,152 @@ func TestVerifC23(t *testing.T) {
 	}
 }
 
+// vkeysMirrored: every operator of the (untransformed) query is in the fragment keysQ mirrors:
+// no where is contradictory or a singleton found by the index analysis over a table, and the
+// fixed values it depends on are mirrored too
+func vkeysMirrored(q Query) bool {
+	if w, ok := q.(*Where); ok {
+		w.Keys() // optInit decides singleton
+		if _, onTable := w.source.(*Table); w.conflict || (w.singleton && onTable) {
+			return false
+		}
+	}
+	if q2, ok := q.(q2i); ok {
+		return vkeysMirrored(q2.Source()) && vkeysMirrored(q2.Source2())
+	}
+	if q1, ok := q.(q1i); ok {
+		return vkeysMirrored(q1.Source())
+	}
+	_, isTable := q.(*Table)
+	return isTable
+}
+
+// vplainExprs: the expressions of the query are left by the parser in the shape the Lean mirror
+// recognises (it mirrors Fixed(), not the parser): a constant operand under and/or/not/if makes
+// the parser fold part of the expression (x and false -> false, ...), and `col <= ""` fixes the
+// column to "" in the code, a rule the mirror does not have
+func vplainExprs(n *vnode) bool {
+	if (n.op == "where" || n.op == "extend") && n.expr != nil && !vplainExpr(n.expr) {
+		return false
+	}
+	for _, k := range n.kids {
+		if !vplainExprs(k) {
+			return false
+		}
+	}
+	return true
+}
+
+func vhasCol(e *vexpr) bool {
+	m := map[string]bool{}
+	e.columns(m)
+	return len(m) > 0
+}
+
+func vplainExpr(e *vexpr) bool {
+	if !vhasCol(e) || e.op == "col" {
+		return true // folded to a constant as a whole / a column
+	}
+	switch e.op {
+	case "and", "or", "not", "if", "add", "sub", "mul": // (0 * x -> 0, ...)
+		for _, k := range e.kids {
+			if !vhasCol(k) {
+				return false
+			}
+		}
+	case "le", "ge", "lt", "gt":
+		for _, k := range e.kids {
+			if k.op == "const" && k.val == EmptyStr {
+				return false
+			}
+		}
+	}
+	for _, k := range e.kids {
+		if !vplainExpr(k) {
+			return false
+		}
+	}
+	return true
+}
+
+// vnoConflict: no where of the (untransformed) query was found contradictory
+func vnoConflict(q Query) bool {
+	if w, ok := q.(*Where); ok && w.conflict {
+		return false
+	}
+	if q2, ok := q.(q2i); ok {
+		return vnoConflict(q2.Source()) && vnoConflict(q2.Source2())
+	}
+	if q1, ok := q.(q1i); ok {
+		return vnoConflict(q1.Source())
+	}
+	return true
+}
+
+// vfixedText is the canonical text of fixed values (as Drive/C23 showFixed)
+func vfixedText(ids *vids, fixed Fixed) (string, bool) {
+	if len(fixed) == 0 {
+		return "-", true
+	}
+	es := make([]string, len(fixed))
+	for i, f := range fixed {
+		vs := make([]string, len(f.values))
+		for j, v := range f.values {
+			vs[j] = vshow(Unpack(v))
+			if vs[j][0] == '?' {
+				return "", false
+			}
+		}
+		sort.Strings(vs)
+		es[i] = strconv.Itoa(ids.id(f.col)) + ":" + strings.Join(vs, "|")
+	}
+	sort.Strings(es)
+	return strings.Join(es, ";"), true
+}
+
+// vkeysText is the canonical text of a list of keys (as Drive/C23 showKeys)
+func vkeysText(ids *vids, keys [][]string) string {
+	ss := make([]string, len(keys))
+	for i, k := range keys {
+		ns := make([]int, len(k))
+		for j, c := range k {
+			ns[j] = ids.id(c)
+		}
+		sort.Ints(ns)
+		cs := make([]string, len(ns))
+		for j, x := range ns {
+			cs[j] = strconv.Itoa(x)
+		}
+		if len(cs) == 0 {
+			ss[i] = "-"
+		} else {
+			ss[i] = strings.Join(cs, ",")
+		}
+	}
+	sort.Strings(ss)
+	return strings.Join(ss, "/")
+}
+
+// vdeclKeys is the keys of the schema of every table, as the Table operator sees them
+func (g *vdb) vdeclKeys() string {
+	var ps []string
+	for _, t := range g.tables {
+		tbl, ok := ParseQuery(t.name, g.rt, nil).(*Table)
+		if !ok {
+			panic("verif: not a table: " + t.name)
+		}
+		ks := make([]string, len(tbl.allKeys))
+		for i, k := range tbl.allKeys {
+			ks[i] = g.ids.list(k)
+		}
+		ps = append(ps, strconv.Itoa(t.id)+"="+strings.Join(ks, "/"))
+	}
+	if len(ps) == 0 {
+		return "-"
+	}
+	return strings.Join(ps, ";")
+}
+
 func vsortedCopy(ss []string) []string {
 	out := append([]string{}, ss...)
 	sort.Strings(out)
@@ -198,6 +344,27 @@ func (g *vdb) checkC23(tr *lib.Trace, n *vnode) {
 		tr.CountN("fixed-checked", len(fixed))
 	}
 	checkMeta("aswritten", keys0, fixed0)
+	// the Keys() derivation itself against its Lean mirror keysQ (Model/QKeys.lean), for the
+	// queries the mirror covers exactly (see vkeysMirrored)
+	// the Fixed() derivation against its Lean mirror fixedQ (Model/QFixed.lean); a where the code
+	// found contradictory (several analyses, only the fixed-value one is mirrored) is left out
+	plain := vplainExprs(n)
+	if n.op != "sort" {
+		if fx, ok := vfixedText(&g.ids, fixed0); ok && plain && vnoConflict(q0) {
+			tr.Q("fixed "+n.toks(&g.ids), fx)
+			tr.Count("fixed-mirrored")
+		} else {
+			tr.Count("fixed-not-mirrored")
+		}
+	}
+	if n.op != "sort" {
+		if plain && vkeysMirrored(q0) {
+			tr.Q("keys "+g.vdeclKeys()+" "+n.toks(&g.ids), vkeysText(&g.ids, keys0))
+			tr.Count("keys-mirrored")
+		} else {
+			tr.Count("keys-not-mirrored")
+		}
+	}
 
 	// the executed instance, under a random requirement (as fuzzQuery chooses it)
 	q := ParseQuery(src, g.rt, nil)
